@@ -314,6 +314,17 @@ Definition parse_bool (s : str) : option bool :=
 
 Inductive hres := HVal (v : value) | HErr (e : err).
 
+(* confutil.cast: the substituted text of a whole-string placeholder is cast by the target's kind *)
+Definition cast_text (target : schema) (r : str) : hres :=
+  match cast_kind target with
+  | CKBool => match parse_bool r with Some x => HVal (VBool x) | None => HVal (VStr r) end
+  | CKInt bits => match orc (OInt bits) r with Some z => HVal (VInt z) | None => HVal (VStr r) end
+  | CKUint bits => match orc (OInt bits) r with Some z => HVal (VInt (wrap_uint bits z)) | None => HVal (VStr r) end
+  | CKFloat => match orcq r with Some q => HVal (VFloat q) | None => HVal (VStr r) end
+  | CKString => HVal (VStr r)
+  | CKOther => HErr EPlaceholder            (* ErrUnsupportedKind is returned as the hook's error *)
+  end.
+
 (* VariableInjectHook: only for string input *)
 Definition inject (target : schema) (s : str) : hres :=
   let toks := find_tags (length s) s in
@@ -327,19 +338,18 @@ Definition inject (target : schema) (s : str) : hres :=
           match toks with
           | [t] =>
               if str_eqb (trim s) (t_whole t) then
-                match cast_kind target with
-                | CKBool => match parse_bool r with Some x => HVal (VBool x) | None => HVal (VStr r) end
-                | CKInt bits => match orc (OInt bits) r with Some z => HVal (VInt z) | None => HVal (VStr r) end
-                | CKUint bits => match orc (OInt bits) r with Some z => HVal (VInt (wrap_uint bits z)) | None => HVal (VStr r) end
-                | CKFloat => match orcq r with Some q => HVal (VFloat q) | None => HVal (VStr r) end
-                | CKString => HVal (VStr r)
-                | CKOther => HErr EPlaceholder            (* ErrUnsupportedKind is returned as the hook's error *)
-                end
+                cast_text target r
               else HVal (VStr r)
           | _ => HVal (VStr r)
           end
       end
   end.
+
+(* the documented placeholder form ${env:NAME} for a plain name *)
+Definition ph_env (name : str) : str := c_dollar :: c_lbrace :: s_env ++ c_colon :: name ++ [c_rbrace].
+Definition name_char (c : N) : bool :=
+  negb (c =? c_lbrace) && negb (c =? c_rbrace) && negb (c =? c_colon) && negb (is_space c).
+Definition simple_name (s : str) : bool := match s with [] => false | _ => forallb name_char s end.
 
 Definition s_type : str := [116;121;112;101].
 Definition s_path : str := [112;97;116;104].
@@ -472,6 +482,27 @@ Definition check_field (s : schema) (c : cval) (tags : list vtag) : bool :=
       | SAny => negb (is_nil c)
       | _ => forallb (check_tag s c) (tags_before_dive tags)
       end
+  end.
+
+(* one struct level; rec validates nested values *)
+Definition descend (rec : cval -> schema -> bool) (f : fld) (c' : cval) : bool :=
+  match f_schema f with
+  | SStruct _ _ => rec c' (f_schema f)
+  | SSlice e =>
+      if has_dive (f_tags f) then
+        match c' with
+        | CSlice l => forallb (fun x => rec x e) l
+        | _ => true
+        end
+      else true
+  | _ => true
+  end.
+
+Fixpoint vfields (rec : cval -> schema -> bool) (cs : list cval) (ffs : list fld) : bool :=
+  match cs, ffs with
+  | c' :: cs', f :: ffs' =>
+      check_field (f_schema f) c' (f_tags f) && descend rec f c' && vfields rec cs' ffs'
+  | _, _ => true
   end.
 
 Fixpoint validate (c : cval) (s : schema) {struct c} : bool :=
@@ -788,7 +819,9 @@ Definition classify_node (s : schema) (v : value) : pclass :=
       match plugin_entry iface kvs with
       | Some e =>
           match e_conf e with
-          | Some (cs, _) => if entry_lazy fk e then PFree else PStrict (s_type :: map f_key (flat_fields cs))
+          | Some (cs, _) =>
+              if entry_lazy fk e then PFree
+              else if is_struct_schema cs then PStrict (s_type :: map f_key (flat_fields cs)) else PBad
           | None => PStrict [s_type]
           end
       | None => PBad
@@ -836,6 +869,14 @@ Fixpoint update_at (p : list step) (f : value -> option value) (v : value) : opt
   | [] => f v
   | SKey k :: p' => match v with VMap kvs => option_map VMap (kv_update k (update_at p' f) kvs) | _ => None end
   | SIdx i :: p' => match v with VList l => option_map VList (list_update i (update_at p' f) l) | _ => None end
+  end.
+
+(* plain navigation in the written tree *)
+Fixpoint value_at (p : list step) (v : value) : option value :=
+  match p with
+  | [] => Some v
+  | SKey k :: p' => match v with VMap kvs => match find_exact k kvs with Some (_, x) => value_at p' x | None => None end | _ => None end
+  | SIdx i :: p' => match v with VList l => match nth_error l i with Some x => value_at p' x | None => None end | _ => None end
   end.
 
 Definition insert_key (p : list step) (k : str) (x : value) (v : value) : option value :=
@@ -946,6 +987,8 @@ Fixpoint defaults_kept_b (n : nat) (s : schema) (d c : cval) (v : value) : bool 
       end
   end.
 
-(* core/plugin/registry.go NewFactory: for a plugin constructor (not a factory constructor) the config is
-   created and filled inside the produced factory, i.e. at the first factory call and not at decode time. *)
-Definition model_factory_lazy : bool := true.
+(* core/plugin/registry.go NewFactory (after fix bfeb27f): for a plugin constructor the config is still created
+   and filled on every factory call, but it is also filled once when the factory is created, and that error
+   is the error of the decode.  (Before the fix this constant was true: the config was first looked at when the
+   engine asked for the first product.) *)
+Definition model_factory_lazy : bool := false.
